@@ -451,17 +451,46 @@ func runC16(c *core.Ctx) {
 				{"struct.pipelinedStart", "IterWithFlags)#0", "F:(call(bytes.Compare)#0 < const(1))", "smallest flushed key"},
 				{"struct.pipelinedEnd", "IterReverseWithFlags)#0", "T:(call(bytes.Compare)#0 < const(0))", "largest flushed key"},
 			} {
-				var cmps []*ssa.Call
+				// the comparison of the recorded bound with this flush's bound, in any spelling: (x < y) xor neg
+				type cmpForm struct {
+					cl           *ssa.Call
+					field, other ssa.Value
+				}
+				var cmps []cmpForm
+				// extends(v): v is the test; second result = truth of "the new key extends the range" when v is true
+				extends := func(v ssa.Value) (bool, bool) {
+					x, y, neg, ok, _ := bytesLess(v)
+					if !ok {
+						return false, false
+					}
+					fx, fy := strings.Contains(descSet(x), spec.field+","), strings.Contains(descSet(y), spec.field+",")
+					if fx == fy {
+						return false, false
+					}
+					// start: extends ⇔ other < field; end: extends ⇔ field < other
+					wantFieldRight := spec.field == "struct.pipelinedStart"
+					if fy == wantFieldRight {
+						return true, !neg
+					}
+					return false, false // the converse comparison (≤) does not decide "extends"
+				}
 				core.Instrs(cb, func(in ssa.Instruction) {
-					if cl, ok := in.(*ssa.Call); ok && cl.Call.StaticCallee() != nil && cl.Call.StaticCallee().String() == "bytes.Compare" && strings.Contains(descSet(cl.Call.Args[0]), spec.field+",") {
-						cmps = append(cmps, cl)
+					if cl, ok := in.(*ssa.Call); ok && cl.Call.StaticCallee() != nil && cl.Call.StaticCallee().String() == "bytes.Compare" {
+						f0, f1 := strings.Contains(descSet(cl.Call.Args[0]), spec.field+","), strings.Contains(descSet(cl.Call.Args[1]), spec.field+",")
+						switch {
+						case f0 && !f1:
+							cmps = append(cmps, cmpForm{cl, cl.Call.Args[0], cl.Call.Args[1]})
+						case f1 && !f0:
+							cmps = append(cmps, cmpForm{cl, cl.Call.Args[1], cl.Call.Args[0]})
+						}
 					}
 				})
 				a.checkAt(len(cmps) == 1, fname(cb)+" compares "+spec.field+" with the buffer's bound", a.fnPos(cb), "", fmt.Sprintf("found %d comparisons", len(cmps)))
-				for _, cl := range cmps {
-					d := descSet(cl.Call.Args[1])
+				for _, cf := range cmps {
+					cl := cf.cl
+					d := descSet(cf.other)
 					a.check(strings.Contains(d, spec.iter) && strings.Contains(d, "Key)#0"), fname(cb)+" "+spec.field+" compared with the "+spec.name+" of this flush", cl, d, "the recorded range bound is compared with the wrong key: the range may not cover every flushed key: "+d)
-					g, how := emptinessGuarded(c, cb, cl, cl.Call.Args[0], descSet(cl.Call.Args[0]))
+					g, how := emptinessGuarded(c, cb, cl, cf.field, descSet(cf.field))
 					a.check(g, fname(cb)+" "+spec.field+" emptiness tested before comparing", cl, how, "unset bound compared: "+how)
 				}
 				sts := storesToFieldNamed(cb, spec.field)
@@ -469,8 +498,11 @@ func runC16(c *core.Ctx) {
 				for _, st := range sts {
 					// reachable only when unset or the comparison says the new key extends the range
 					q := &core.Q{Fn: cb, NoEdge: func(e core.Edge) bool {
+						if m, t := core.EdgeTruth(e, extends); m && t {
+							return true
+						}
 						at := p.EdgeAtom(e)
-						return at == spec.okAtom || (strings.HasPrefix(at, "T:(const(0) == len(fld("+spec.field+",") || strings.HasPrefix(at, "T:(len(fld("+spec.field+",") && strings.HasSuffix(at, "< const(1))"))
+						return strings.HasPrefix(at, "T:(const(0) == len(fld("+spec.field+",") || strings.HasPrefix(at, "T:(len(fld("+spec.field+",") && strings.HasSuffix(at, "< const(1))")
 					}}
 					found, w, _ := q.Reach(nil, func(in ssa.Instruction) bool { return in == st })
 					a.check(!found, fname(cb)+" "+spec.field+" only extended", st, "", "the recorded range bound can be replaced by a key that does not extend the range: "+a.w(w))
@@ -499,7 +531,7 @@ func runC16(c *core.Ctx) {
 				for _, f := range []string{"struct.pipelinedStart", "struct.pipelinedEnd"} {
 					q := &core.Q{Fn: cb, NoPass: func(in ssa.Instruction) bool {
 						cl, ok := in.(*ssa.Call)
-						return ok && cl.Call.StaticCallee() != nil && cl.Call.StaticCallee().String() == "bytes.Compare" && strings.Contains(descSet(cl.Call.Args[0]), f+",")
+						return ok && cl.Call.StaticCallee() != nil && cl.Call.StaticCallee().String() == "bytes.Compare" && (strings.Contains(descSet(cl.Call.Args[0]), f+",") || strings.Contains(descSet(cl.Call.Args[1]), f+","))
 					}, NoEdge: func(e core.Edge) bool {
 						at := p.EdgeAtom(e)
 						return strings.HasPrefix(at, "T:(const(0) == len(fld("+f+",")
